@@ -153,7 +153,9 @@ def no_empty_ack_for_request(ev, sent):
 
 
 # ---------------------------------------------------------------- several messages and sessions
-def gen_multi_case(r, big=False):
+def gen_multi_case(r, big=False, with_disconnect=None):
+    if with_disconnect is None:
+        with_disconnect = r.random() < 0.5
     ns = r.choice([1, 1, 2, 3]) if not big else r.choice([2, 3, 4, 6])
     cfgs = [rand_cfg(r, nstart=1000) for _ in range(ns)]
     ev = []
@@ -194,8 +196,18 @@ def gen_multi_case(r, big=False):
                 ev.append(e)
             if r.random() < 0.2:
                 ev.append(list(ev[-1]))             # duplicate
-        elif x < 0.94:
+        elif x < 0.93:
             ev.append(["Q"])
+        elif x < 0.945 and ns > 1 and sent and with_disconnect:
+            # the application (or a socket error) disconnects one session while others are pending
+            ev.append(["D", r.choice(sent)[1] if r.random() < 0.8 else r.randrange(ns), r.choice([1, 1, 3, 5, 6])])
+        elif x < 0.96 and sent:
+            # a NON response from the peer: token of some message (implicit acknowledgement) or a
+            # foreign token; its mid is from the peer's id space and sometimes collides with ours
+            m = r.choice(sent)
+            tok = m[4] if r.random() < 0.6 else r.choice(["-", "0badc0de", m[4][:-2] or "-"])
+            mid = r.choice(sent)[2] if r.random() < 0.6 else r.randrange(65536)
+            ev.append(["N", m[1] if r.random() < 0.85 else r.randrange(ns), mid, r.choice([69, 68, 132]), tok])
         else:
             ev.append(["R" if r.random() < 0.5 else "K", r.randrange(ns), r.randrange(65536)])
         no_empty_ack_for_request(ev, sent)
@@ -234,6 +246,43 @@ def gen_nstart1_case(r):
     ev += drain((mx + 2) * ns + 1)
     ev += [["T"], ["Q"]]
     return {"cfgs": cfgs, "ev": ev, "kind": "nstart1"}
+
+
+# ---------------------------------------------------------------- cancel paths, several sessions
+def gen_cancel_case(r):
+    """2-4 sessions with interleaved deadlines in one queue; one session's entries are removed
+    through a cancel path (NON response with the token / coap_session_disconnected) while the
+    others are pending: their deadlines, retransmissions and the reported waits must not move"""
+    ns = r.choice([2, 2, 3, 4])
+    cfgs = [rand_cfg(r, nstart=1000) for _ in range(ns)]
+    ev = []
+    sent = []
+    mid = 100
+    for _ in range(r.randrange(2, 7)):
+        s = r.randrange(ns)
+        m = rand_msg(r, s, mid, request=True)
+        if r.random() < 0.3 and sent:
+            m[4] = r.choice(sent)[4]           # same token again (another request of that exchange)
+        mid += 1
+        sent.append(m)
+        ev.append(m)
+        ev.append(["A", r.choice([0, 1, 100, 500, 700, 1500])])
+        if r.random() < 0.3:
+            ev += [["T"], ["W", 0]]
+    ev.append(["Q"])
+    victim = r.choice(sent)
+    if r.random() < 0.5:
+        ev.append(["N", victim[1], r.choice([victim[2], r.randrange(65536)]), 69, victim[4]])
+    else:
+        ev.append(["D", victim[1], r.choice([1, 3, 5])])
+    ev.append(["Q"])
+    if r.random() < 0.4:
+        v2 = r.choice(sent)
+        ev += [["T"], ["W", 0], ["N", v2[1], r.randrange(65536), 69, v2[4]], ["Q"]]
+    mx = max(c[4] for c in cfgs)
+    ev += drain(r.choice([2, mx + 3, (mx + 2) * len(sent)]))
+    ev += [["T"], ["Q"]]
+    return {"cfgs": cfgs, "ev": ev, "kind": "cancel"}
 
 
 # ---------------------------------------------------------------- separate response
